@@ -19,6 +19,13 @@ REPO = "/repo"
 
 # property -> list of (name, file relative to /repo, old, new)
 MUTANTS = {
+    "C16": [
+        ("davies-0.3", "src/phreeqcpp/model.cpp", "(muhalf / (1.0 + muhalf) - 0.3 * mu);", "(muhalf / (1.0 + muhalf) - 0.24 * mu);"),
+        ("wateq-drop-b", "src/phreeqcpp/model.cpp", "\t\t\ts_x[i]->lg = -a * muhalf * s_x[i]->z * s_x[i]->z /\n\t\t\t\t(1.0 + s_x[i]->dha * b * muhalf) + s_x[i]->dhb * mu;", "\t\t\ts_x[i]->lg = -a * muhalf * s_x[i]->z * s_x[i]->z /\n\t\t\t\t(1.0 + s_x[i]->dha * b * muhalf) + s_x[i]->dhb * mu * (s_x[i]->z > 1.5 ? 0.999 : 1.0);"),
+        ("llnl-bdot", "src/phreeqcpp/model.cpp", "bdot_llnl = (1 - f) * llnl_bdot[ifirst] + f * llnl_bdot[ilast];", "bdot_llnl = (1 - f) * llnl_bdot[ifirst] + f * llnl_bdot[ifirst];"),
+        ("pitzer-osmotic*", "src/phreeqcpp/pitzer.cpp", "\tCOSMOT = 1.0 + 2.0 * OSMOT / OSUM;", "\tCOSMOT = 1.0 + 2.002 * OSMOT / OSUM;"),
+        ("sit-osmotic", "src/phreeqcpp/sit.cpp", "OSMOT = -2.0*A/(B*B*B)*(T - 2.0*log(T) - 1.0/T);", "OSMOT = -2.0*A/(B*B*B)*(T - 2.0*log(T) - 1.0/T) * 1.001;"),
+    ],
     "C01": [
         ("kcalc-log-term", "src/phreeqcpp/prep.cpp", "+ l_logk[T_A4] * log10(tempk)", "+ l_logk[T_A4] * log(tempk)"),
         ("kcalc-a5-term", "src/phreeqcpp/prep.cpp", "+ l_logk[T_A5] / (tempk * tempk)", "+ l_logk[T_A5] / (tempk * 298.15)"),
@@ -82,7 +89,7 @@ def mutants(prop, only):
             continue
         path = os.path.join(REPO, rel)
         s = open(path).read()
-        if s.count(old) != 1:
+        if s.count(old) != 1 and not name.endswith("*"):
             print("%-24s SKIP: anchor text occurs %d times in %s" % (name, s.count(old), rel))
             res.append((name, "skip"))
             continue
